@@ -4,6 +4,9 @@
 //! (principal id, resource id, context; per entity: attributes, ancestors, tags, or the whole entity).  Consistent
 //! completions are therefore available: the original, plus variations in which exactly the erased parts are
 //! re-sampled conformantly (parents only where no entity with *known* ancestors can see the change).
+//! 20% of the cases are the SET-MEMBERSHIP family (`member_case`): known, often empty or singleton, sets from the context or
+//! from entity data combined by contains / containsAny / containsAll with operands that stay residual and error on some
+//! completions (entities absent from the completion's store, overflow), under `!`, `||`, `&&`, `if`.
 //!   S  (the statement on the implementation, `propfail`):
 //!      * a definite TPE decision equals `Authorizer::is_authorized` on every sampled completion;
 //!      * every residual policy (`get_policy(id)`, evaluated by the concrete evaluator) is satisfied / unsatisfied /
